@@ -9,6 +9,8 @@ import NutsModel.C06.Admit
 import NutsModel.C06.Cfg
 import NutsModel.Facts.C06
 import NutsProofs.Lemmas.C06
+import NutsModel.C06.Framing
+import NutsProofs.Lemmas.C06Framing
 
 namespace Nuts.C06.Props
 open Nuts Nuts.C06
@@ -599,5 +601,83 @@ example : parse srcCfg (fun _ => true)
           prevs := [0], pal := [], clock := 5 } := by decide
 
 end Ex
+
+
+/-! ### Deepening round 2026-09-28 — the framing check on the BYTES (parser.go `isJWSSerialization`, NutsModel/C06/Framing.lean) -/
+
+section FramingBytes
+open Nuts.C06.Framing
+
+/-- the body of `isJWSSerialization` is the one `Framing.isJWSSerialization` mirrors, statement by statement: trim with
+    `unicode.IsSpace`, '{' ⇒ JSON; else split at '.', exactly 3 segments, each must decode with `RawURLEncoding` and re-encode to itself -/
+theorem fact_framing_body :
+    Facts.C06.framingStmts =
+      ["trimmed := bytes.TrimLeftFunc(input, unicode.IsSpace)", "if len(trimmed) > 0 && trimmed[0] == '{'", "return true",
+       "segments := bytes.Split(input, <*ast.ArrayType>{'.'})", "if len(segments) != 3", "return false", "range segments",
+       "decoded, err := base64.RawURLEncoding.DecodeString(string(segment))",
+       "if err != nil || base64.RawURLEncoding.EncodeToString(decoded) != string(segment)", "return false", "return true"] ∧
+    (Facts.C06.framingSep, Facts.C06.framingSegments, Facts.C06.framingJsonByte) = (46, 3, 123) := by decide
+
+/-- `ParseTransaction` on bytes: whatever it accepts passed `isJWSSerialization` computed on those bytes, and carries their hash as ref -/
+theorem accepted_bytes_pass_framing (b64 : String → Bool) (sha : List Nat → Nat) (input : List Nat) (h : Hdr) (tx : Tx)
+    (hp : parseBytes srcCfg b64 sha input h = .ok tx) : isJWSSerialization input = true ∧ tx.ref = sha input :=
+  ⟨accepted_bytes_are_a_jws_serialization b64 _ tx hp, (parse_wellFormed hp).ref⟩
+
+/-- an accepted compact serialization consists of exactly three segments over the base64url alphabet: no padding '=', no
+    standard-alphabet '+' '/', no line breaks, no further '.' — everything `jws.Parse` tolerates beyond RFC 7515 is refused -/
+theorem accepted_compact_is_three_canonical_segments (b64 : String → Bool) (sha : List Nat → Nat) (input : List Nat) (h : Hdr) (tx : Tx)
+    (hp : parseBytes srcCfg b64 sha input h = .ok tx) (hj : jsonStart input = false) :
+    ∃ s1 s2 s3, input = s1 ++ 46 :: (s2 ++ 46 :: s3) ∧
+      (∀ s ∈ [s1, s2, s3], (∀ c ∈ s, isAlpha c = true) ∧ s.length % 4 ≠ 1 ∧ ∃ d, b64Decode s = some d ∧ b64Encode d = s) := by
+  obtain ⟨s1, s2, s3, hs, c1, c2, c3⟩ := compact_of_isJWS (accepted_bytes_pass_framing b64 sha input h tx hp).1 hj
+  refine ⟨s1, s2, s3, ?_, ?_⟩
+  · have := join_split 46 input
+    rw [hs] at this
+    simpa [joinWith] using this.symm
+  · intro s hs'
+    simp at hs'
+    rcases hs' with e | e | e <;> subst e
+    · exact ⟨canonical_alpha c1, canonical_len c1, canonical_eq c1⟩
+    · exact ⟨canonical_alpha c2, canonical_len c2, canonical_eq c2⟩
+    · exact ⟨canonical_alpha c3, canonical_len c3, canonical_eq c3⟩
+
+/-- ONE SIGNED TRANSACTION, ONE REFERENCE: two accepted compact inputs that carry the same header, payload and signature bytes
+    are the same byte string, hence the same transaction reference (for any hash function).  This is what the framing guard is
+    for: the DAG identifies a transaction by the hash of its bytes. -/
+theorem one_signed_transaction_one_ref (b64 : String → Bool) (sha : List Nat → Nat) (a b : List Nat) (ha hb : Hdr) (ta tb : Tx)
+    (pa : parseBytes srcCfg b64 sha a ha = .ok ta) (pb : parseBytes srcCfg b64 sha b hb = .ok tb)
+    (ja : jsonStart a = false) (jb : jsonStart b = false)
+    (same : decodedSegments a = decodedSegments b) : a = b ∧ ta.ref = tb.ref := by
+  have fa := accepted_bytes_pass_framing b64 sha a ha ta pa
+  have fb := accepted_bytes_pass_framing b64 sha b hb tb pb
+  have e := compact_unique fa.1 ja fb.1 jb same
+  exact ⟨e, by rw [fa.2, fb.2, e]⟩
+
+/-- the guard refuses nothing honest: the compact serialization of ANY header / payload / signature bytes passes -/
+theorem honest_compact_passes_framing (d1 d2 d3 : List Nat)
+    (h1 : ∀ x ∈ d1, x < 256) (h2 : ∀ x ∈ d2, x < 256) (h3 : ∀ x ∈ d3, x < 256) :
+    isJWSSerialization (b64Encode d1 ++ 46 :: (b64Encode d2 ++ 46 :: b64Encode d3)) = true ∧
+    decodedSegments (b64Encode d1 ++ 46 :: (b64Encode d2 ++ 46 :: b64Encode d3)) = [some d1, some d2, some d3] := by
+  refine ⟨compact_accepted d1 d2 d3 h1 h2 h3, ?_⟩
+  unfold decodedSegments
+  rw [splitOn_append _ (encode_no_dot d1), splitOn_append _ (encode_no_dot d2), splitOn_no_sep (encode_no_dot d3)]
+  simp [decode_encode _ h1, decode_encode _ h2, decode_encode _ h3]
+
+/-- without the re-encode comparison the decoder alone is NOT injective: "QQ" and "QR" (non-zero trailing bits), "QQ\n" (line
+    break) all decode to the byte 'A' — three byte strings, three refs, one signed content (the defect repaired in 88f8bf0) -/
+theorem decoder_alone_is_not_injective :
+    b64Decode [81, 81] = some [65] ∧ b64Decode [81, 82] = some [65] ∧ b64Decode [81, 81, 10] = some [65] ∧
+    canonical [81, 81] = true ∧ canonical [81, 82] = false ∧ canonical [81, 81, 10] = false := by decide
+
+/-- non-vacuity: "e30.QQ.QQ" is accepted framing, "e30.QQ.QQ.x", "e30.QQ=.QQ", "e30.QQ" and "e30.Q.QQ" are not; " \t{" is JSON -/
+example : isJWSSerialization [101, 51, 48, 46, 81, 81, 46, 81, 81] = true := by decide
+example : isJWSSerialization [101, 51, 48, 46, 81, 81, 46, 81, 81, 46, 120] = false := by decide
+example : isJWSSerialization [101, 51, 48, 46, 81, 81, 61, 46, 81, 81] = false := by decide
+example : isJWSSerialization [101, 51, 48, 46, 81, 81] = false := by decide
+example : isJWSSerialization [101, 51, 48, 46, 81, 46, 81, 81] = false := by decide
+example : isJWSSerialization [32, 9, 0xC2, 0xA0, 0xE2, 0x80, 0x83, 123] = true := by decide
+example : jsonStart [101, 51, 48, 46, 81, 81, 46, 81, 81] = false := by decide
+
+end FramingBytes
 
 end Nuts.C06.Props
